@@ -301,7 +301,7 @@ func measure(f func()) float64 {
 // C17: reading allocates nothing; steady-state writing allocates nothing.
 func C17(c *runner.Cfg) *report.Result {
 	res := report.New("C17", "")
-	res.Rule = "message/list shapes from the C01 generator (random trees, wide messages >48 fields, lists of 255/256/300 elements, lists and messages of 673/800/1500/5000 entries, nesting >14, 64 KiB payloads, structs): (read) ParseValue + every field/element/string/bytes/nested message/struct accessor of pre-built bytes; (write) the same shape written into a reused buffer with a pooled writer (NewMessageWriterBuffer/NewListWriterBuffer) and with a reused owned writer (Reset); oracle: testing.AllocsPerRun(100) == 0 after 3 warm-up runs, a non-zero reading must repeat 3 times; measured single-threaded; non-trivial = shape with >=2 nodes; distinct = distinct encodings"
+	res.Rule = "message/list shapes from the C01 generator (random trees, wide messages >48 fields, lists of 255/256/300 elements, lists and messages of 673/800/1500/5000 entries, nesting >14, 64 KiB payloads, structs): (read) ParseValue + every field/element/string/bytes/nested message/struct accessor of pre-built bytes; (write) the same shape written into a reused buffer with a pooled writer (NewMessageWriterBuffer/NewListWriterBuffer) and with a reused owned writer (Reset); root values of every scalar kind, strings, bytes, lists and messages written through NewValueWriterBuffer ... Build and through Value() of the reused writer; oracle: testing.AllocsPerRun(100) == 0 after 3 warm-up runs, a non-zero reading must repeat 3 times; measured single-threaded; non-trivial = shape with >=2 nodes; distinct = distinct encodings"
 	old := runtime.GOMAXPROCS(1)
 	defer runtime.GOMAXPROCS(old)
 	n := c.N(300, 20000)
@@ -413,8 +413,117 @@ func C17(c *runner.Cfg) *report.Result {
 			res.Sample(witness)
 		}
 	}
+	// root values: a scalar, string, bytes, struct, list or message written as the root through a pooled
+	// value writer (NewValueWriterBuffer ... Build) and through the Value() of a reused owned writer
+	if only < 0 {
+		rootValues(c, res, buf, owned)
+	}
 	slot.Done()
 	res.Observe("sink", c17sink&1)
 	res.Assumptions = []string{"testing.AllocsPerRun (runtime.MemStats.Mallocs) as the allocation counter; GC left on; single goroutine"}
 	return res
+}
+
+// wValue writes n as the root value of vw.
+func wValue(vw spec.ValueWriter, n *vg.Node) ([]byte, error) {
+	var err error
+	switch n.Kind {
+	case vg.KBool:
+		err = vw.Bool(n.U != 0)
+	case vg.KByte:
+		err = vw.Byte(byte(n.U))
+	case vg.KInt16:
+		err = vw.Int16(int16(n.U))
+	case vg.KInt32:
+		err = vw.Int32(int32(n.U))
+	case vg.KInt64:
+		err = vw.Int64(int64(n.U))
+	case vg.KUint16:
+		err = vw.Uint16(uint16(n.U))
+	case vg.KUint32:
+		err = vw.Uint32(uint32(n.U))
+	case vg.KUint64:
+		err = vw.Uint64(n.U)
+	case vg.KFloat32:
+		err = vw.Float32(math.Float32frombits(uint32(n.U)))
+	case vg.KFloat64:
+		err = vw.Float64(math.Float64frombits(n.U))
+	case vg.KBin64:
+		err = vw.Bin64(vg.ToBin64(n.B))
+	case vg.KBin128:
+		err = vw.Bin128(vg.ToBin128(n.B))
+	case vg.KBin256:
+		err = vw.Bin256(vg.ToBin256(n.B))
+	case vg.KBytes:
+		err = vw.Bytes(n.B)
+	case vg.KString:
+		err = vw.String(ustr(n.B))
+	case vg.KList:
+		l := vw.List()
+		if err = wList(l, n); err == nil {
+			return l.Build()
+		}
+		return nil, err
+	case vg.KMessage:
+		m := vw.Message()
+		if err = wMessage(m, n); err == nil {
+			return m.Build()
+		}
+		return nil, err
+	default:
+		return nil, fmt.Errorf("kind %v is not written as a root value", n.Kind)
+	}
+	if err != nil {
+		return nil, err
+	}
+	return vw.Build()
+}
+
+func rootValues(c *runner.Cfg, res *report.Result, buf buffer.Buffer, owned spec.Writer) {
+	kinds := []vg.Kind{vg.KBool, vg.KByte, vg.KInt16, vg.KInt32, vg.KInt64, vg.KUint16, vg.KUint32, vg.KUint64, vg.KFloat32, vg.KFloat64,
+		vg.KBin64, vg.KBin128, vg.KBin256, vg.KBytes, vg.KString, vg.KList, vg.KMessage}
+	n := c.N(3, 40) * len(kinds)
+	slot := c.J.Slot()
+	defer slot.Done()
+	for idx := 0; idx < n; idx++ {
+		slot.SetString(fmt.Sprintf("C17/root-value:%d", idx))
+		r := rng.New(c.Seed, "c17/root-value", uint64(idx))
+		k := kinds[idx%len(kinds)]
+		var p *vg.Node
+		switch k {
+		case vg.KList:
+			p = vg.List(vg.LeafOf(r, vg.KInt32, 20), vg.LeafOf(r, vg.KString, 20))
+		case vg.KMessage:
+			p = vg.Msg(vg.F(1, vg.LeafOf(r, vg.KInt64, 20)), vg.F(9, vg.LeafOf(r, vg.KBytes, 20)))
+		default:
+			p = vg.LeafOf(r, k, 20)
+		}
+		strip(p)
+		ref := refcodec.Encode(p)
+		res.Eval(1)
+		res.Nontrivial(rng.HashBytes(ref) ^ 0x17)
+		witness := map[string]any{"stream": "root-value", "index": idx, "shape": p.String(), "encoded_bytes": len(ref)}
+		var out []byte
+		var werr error
+		if a := measure(func() {
+			buf.Reset()
+			out, werr = wValue(spec.NewValueWriterBuffer(buf), p)
+		}); a != 0 {
+			res.Violate("c17:pooled-root-value-write-allocates", fmt.Sprintf("steady-state write of a root value with a pooled value writer (NewValueWriterBuffer ... Build) into a reused buffer allocates %.0f objects per value", a), witness)
+		}
+		if werr != nil || string(out) != string(ref) {
+			res.Inconcl("root value %d: the write walk did not reproduce the reference bytes (err=%v)", idx, werr)
+		}
+		if a := measure(func() {
+			buf.Reset()
+			owned.Reset(buf)
+			out, werr = wValue(owned.Value(), p)
+		}); a != 0 {
+			res.Violate("c17:reused-writer-root-value-allocates", fmt.Sprintf("steady-state write of a root value with a Reset writer into a reused buffer allocates %.0f objects per value", a), witness)
+		}
+		if werr != nil || string(out) != string(ref) {
+			res.Inconcl("root value %d: the owned write walk did not reproduce the reference bytes (err=%v)", idx, werr)
+		}
+	}
+	res.Count("root_values_written", int64(n))
 }
